@@ -17,7 +17,8 @@ implementation's outputs):
                            iluk with k >= n, ilut with tau = 0 and p >= n)
   tri triangular solve     (I+L)(D^-1+U) x = b for ilu_solve on random strict factors
 spai1 (double build) is compared with the exact least-squares model Spai1.v up to 1e-9; spai0 with
-std::complex<double> against the least-squares minimiser (python reference).
+std::complex<double> against the least-squares minimiser conj(a_ii)/sum_j|a_ij|^2 (python reference; the formula
+of the repaired spai0.hpp and of Relax.spai0_row, proved minimal in Spai0Min.v: C06_spai0_minimiser_complex).
 Case ids carry the oracle kind as prefix (fx.., ex.., lu.., tri..), so a replayed case re-runs its oracle.
 
 BLOCK VALUE TYPES (ops "b.<op> <b> ...", harness/drv_relax_block.cpp, ocaml/relax/ops_relax_block.ml): the same
@@ -691,7 +692,10 @@ def run(ctx, cases_override=None):
     lines = [l for l in lines if l.split(" ", 2)[1] not in ("spai0_cplx", "spai1", "spai1_m")]
     fails += spai1_run(ctx, slines if cases_override else None)
     # complex value type: SPAI-0 against the row-wise least-squares minimiser conj(a_ii)/sum|a_ij|^2
-    # (std::complex<double>; python reference, tolerance 1e-12; no Coq instance for complex numbers)
+    # (std::complex<double>; python reference, tolerance 1e-12).  Since the repair of finding C06-spai0-no-conj
+    # (spai0.hpp: num += math::adjoint(v)) this passes; Coq: C06_spai0_minimiser_complex (Spai0Min.v) proves that the
+    # model formula IS the minimiser over ComplexS of an ordered field.  classify() still recognises the old defect
+    # (M_i = a_ii/sum|a_ij|^2 on a non-real diagonal): the finding is 'fixed', so its return is a VIOLATION.
     fails += complex_spai0(ctx, zlines if cases_override else None)
     if not lines: return fails
     f, impl, model = diff_run(ctx, "relax", lines, env={"OMP_NUM_THREADS": "1"})
@@ -841,6 +845,25 @@ def complex_spai0(ctx, lines=None):
                     oracle=dict(op="py_ls_minimiser", result="FAIL row %d M=%r minimiser=%r" % (i, M[i], ls),
                                 matches_formula_without_conj=abs(M[i] - coded) <= 1e-12, diag_nonreal=(aii.imag != 0))))
                 break
+    # the extracted Coq model Relax.spai0_setup at the instance ComplexS QcS (ocaml/relax/ops_relax_cplx.ml), run on the
+    # same cases: exact numerator (adjoint), denominator through the 2^-64-grid pseudo square root -> tolerance 1e-12
+    model = ctx["run_driver"](ctx["model"], lines)
+    failed = set(f["case"] for f in fails)
+    for l in lines:
+        if l in failed: continue
+        cid = l.split(" ", 1)[0]; a, b = impl.get(cid) or "", model.get(cid) or ""
+        ctx["stats"]["evaluations"] += 1; ctx["stats"]["by_op"]["m.spai0_cplx"] = ctx["stats"]["by_op"].get("m.spai0_cplx", 0) + 1
+        ok = False
+        try:
+            va = [F(float(x)) for x in parse_out_vec(a)]; vb = [F(x) for x in b.strip()[1:-1].split()]
+            ok = len(va) == len(vb) and len(va) > 0 and all(abs(x - y) <= F(1, 10 ** 12) for x, y in zip(va, vb))
+            if ok and any(y != 0 for y in vb): ctx["stats"]["nontrivial"] += 1
+        except Exception:
+            ok = False
+        if not ok:
+            ctx["stats"]["mismatches"] += 1
+            fails.append(dict(kind="counterexample", case=l, impl=a[:2000], model=b[:2000], op="spai0_cplx", size=len(l),
+                theorem="spai0 (std::complex<double>, tolerance 1e-12) vs the extracted Coq model Relax.spai0_setup at ComplexS QcS"))
     return fails
 
 
